@@ -23,7 +23,7 @@ LEVEL = ("Generated-input exploration over feature widths (X wider, equal, narro
          "train-only, test-only), neighbour counts and estimators: planted maps give zero error / distortion, pointwise values are "
          "non-negative and aggregate by RMS, GRE/GRD/LRE are invariant under the stated isometries, GRE on the training set is <= 1 and "
          "LRE with all training points equals pointwise GRE. No absence claim: strength = the counted distinct non-trivial cases.")
-BUDGET = {"quick": 45, "thorough": 700}
+BUDGET = {"quick": 45, "thorough": 180}
 WATCHDOG = {"quick": 60, "thorough": 240}
 RULE = ("Cases: 1..6 features on either side, n in [4 f_X + 8, 4 f_X + 40] samples (thorough +120) so that every sub-sample an estimator is "
         "fitted on can have full column rank, X = normal x column scales + offset, Y = tanh(X B) + noise; index modes default / explicit split "
@@ -161,7 +161,10 @@ def check(case, ctx):
             ctx.close(name + ":test-subset-independence", b_sub, b[: len(b_sub)], 1e-9 * max(1.0, float(b.max())), "pointwise values on a subset of the test points")
         with ctx.lib(name + "-transformed"):
             a2 = gl(Xs, Ys, **extra, **idx)
-        if abs(a2 - a) > inv_tol * max(1.0, a):
+        # LRE far above 1 means local models that interpolate / extrapolate through almost coincident neighbours (small
+        # n_local_points): their sensitivity to rounding of the inputs grows with the value itself
+        lim = inv_tol * max(1.0, a) * (max(1.0, a) if name == "LRE" else 1.0)
+        if abs(a2 - a) > lim:
             if tied_selection(X, Y, Xs, Ys, idx):
                 ctx.skip(name + ": invariance undecided (tied model selection)")
             else:
